@@ -175,7 +175,7 @@ impl Check for C17 {
             let padding = crate::tiera::factory(DEFAULT_SCHEME);
             start_server(padding.clone());
             let is_connect = form == "connect";
-            let internet = start_internet(move |a| if a.port() == 8077 { Tgt::Drip { chunks: 40, gap_ms: 100 } } else if is_connect { Tgt::Echo } else { Tgt::Greet(RESP.to_vec()) });
+            let internet = start_internet(move |a| if a == "198.51.100.77:8077".parse::<SocketAddr>().unwrap() { Tgt::Drip { chunks: 40, gap_ms: 100 } } else if is_connect { Tgt::Echo } else { Tgt::Greet(RESP.to_vec()) });
             let client = make_client(padding, quiet_pool(), PASSWORD);
             start_http(client.clone());
             sleep(Duration::from_millis(1)).await;
